@@ -104,8 +104,12 @@ def gen_cases(rng, tier):
             if ce:
                 events.append(dict(ce, phase=rng.choice(["pre", "post", "post", "post_solve"])))
                 continue
+            val = rand_value(rng, p, N)
+            prev = [e_["value"] for e_ in events if e_.get("name") == p["name"] and "value" in e_ and not e_.get("op")] + [p["value"]]
+            if rng.random() < 0.3:
+                val = rng.choice(prev)           # back to a value the parameter had before (v1 -> v2 -> v1)
             events.append({"phase": rng.choice(["pre", "post", "post", "post_solve"]), "name": p["name"],
-                           "value": rand_value(rng, p, N)})
+                           "value": val})
         # interleave guess updates: they must not disturb any parameter value
         dec = list(spec["controls"]) or [s for s in spec["states"] if not s.get("quad") and
                                          spec["method"]["cls"] != "DC"]   # DC state guesses are C10's subject
